@@ -815,3 +815,22 @@ def t39():
     step, offset, scale = b
     return (a.total(), b.total(), c.scale, step, offset, scale, a == Terms(1, 1, 2.0), a[0], len(c), c._replace(step=9).step, c._fields,
             isinstance(a, tuple))
+
+
+def t40():
+    # a generator defined among the statements of a plain function does not make that function a generator; the selection
+    # written as a conditional expression and as a statement
+    total = []
+
+    def pairs():
+        for k in range(3):
+            yield k, -k - 1
+        yield from ((9, 9),)
+
+    for a, b in pairs():
+        total.append(a - b)
+    lo, hi = 2, 7
+    big = hi if hi > lo else lo
+    if lo < hi:
+        lo = hi
+    return (total, big, lo, sum(v for v in total))
